@@ -772,6 +772,10 @@ def main(tier):
                      "epoch and tick per process)", "TZ / cwd / USER / HOME / HOSTNAME / LANG / COLUMNS of "
                      "every tool process (scheduler-chosen)",
                      "file system and std streams of decoder and command-line ops (SimFS)",
+                     "contents of the working directory of command-line ops (a file the tool looked "
+                     "for in vain may exist in a second run)",
+                     "address-space layout of every tool process (randomisation %s)" %
+                     ("switched off with setarch -R" if NO_ASLR else "left on: the host refuses setarch -R"),
                      "process boundary: a fresh interpreter per simulated tool process"],
         },
         "plan_digest": pd,
